@@ -104,6 +104,10 @@ def check(filename):
     First execute the command and then call ``matches_golden``. If a
     cross-check command is specified, do the same for that one as well.
     """
+    if options.args().unchecked:
+        # nothing is executed, every candidate is assumed to be okay (even if
+        # a --match-* option is given that the dummy output can not satisfy)
+        return True
     ri = execute(options.args().cmd, filename, options.args().timeout)
     if not matches_golden(
             __GOLDEN, ri,
